@@ -37,7 +37,7 @@ class C14(Check):
                 continue
             F, style = crowd.gen_front(self.rng)
             label = self.rng.choice(["mnn", "2nn", "pcd"])
-            yield {"kind": "metric", "F": enc(F), "style": style, "label": label, "n_remove": self.rng.randint(0, len(F)), "seed": self.rng.randrange(2 ** 31)}
+            yield {"kind": "metric", "F": enc(F), "style": style, "label": label, "n_remove": crowd.pick_n_remove(self.rng, len(F), F.shape[1]), "seed": self.rng.randrange(2 ** 31)}
 
     def run(self, case):
         if case["kind"] == "spacing":
